@@ -288,7 +288,11 @@ namespace
                     auto value = res->data_try<d_boolean, bool>();
                     if (value.has_value())
                     {
-                        return result::ok;
+                        if (value.value())
+                        {
+                            return result::ok;
+                        }
+                        // condition is false: keep waiting
                     }
                     else
                     {
